@@ -152,6 +152,8 @@ type Machine struct {
 	intrCache map[*ssa.Function]intrEntry
 	paramsSeen map[string]int
 	extraInit  map[string]bool
+	uniqInit   []uniqEntry
+	uniqPath   []uniqEntry
 	cfCache   map[string]Result
 	sumCtx    *localCtx
 
@@ -212,6 +214,7 @@ func (m *Machine) resetPath(item WorkItem) {
 	}
 	m.trail = m.trail[:0]
 	m.syncReset()
+	m.uniqPath = m.uniqPath[:0]
 	m.epoch = 1
 	m.watchEpoch = 0
 	m.watching = false
